@@ -102,6 +102,7 @@ type w1Hist struct {
 func w1Parse(ev []simrt.Ev) *w1Hist {
 	h := &w1Hist{ev: ev, rdByNm: map[string]*w1RdSess{}, wrIndex: map[[2]int64]*w1Write{}, last: map[string]int64{}}
 	curPub := map[string]*w1PubSess{}
+	lastPub := map[string]*w1PubSess{}
 	pend := map[string]*w1Write{}
 	var curReload *[3]int64
 	for _, e := range ev {
@@ -140,7 +141,13 @@ func w1Parse(ev []simrt.Ev) *w1Hist {
 				}
 			}
 		case "pub.close":
-			if p := curPub[e.A]; p != nil && p.closeSeq == 0 {
+			p := curPub[e.A]
+			if p == nil {
+				// closed by the path after its RemovePublisher had already returned: the
+				// path was terminating and had not processed the removal
+				p = lastPub[e.A]
+			}
+			if p != nil && p.closeSeq == 0 {
 				p.closeSeq = e.Seq
 			}
 		case "pub.remove.call":
@@ -150,6 +157,7 @@ func w1Parse(ev []simrt.Ev) *w1Hist {
 		case "pub.remove.ret":
 			if p := curPub[e.A]; p != nil {
 				p.removeRet = e.Seq
+				lastPub[e.A] = p
 				delete(curPub, e.A)
 			}
 		case "write.begin":
@@ -397,10 +405,14 @@ func w1C03(h *w1Hist, body *w1Body, v *w1Viol) {
 				continue
 			}
 		}
-		if !justified(from, to, p.path, 1, cred[p.name]) {
+		pbase := p.name
+		if i := strings.Index(pbase, "."); i > 0 {
+			pbase = pbase[:i]
+		}
+		if !justified(from, to, p.path, 1, cred[pbase]) {
 			v.add("C03", "attach-without-authorization",
 				"publisher %s attached to %q but the authentication manager never admitted %q for publish on exactly that name in its flow (seq %d..%d)",
-				p.name, p.path, cred[p.name], from, to)
+				p.name, p.path, cred[pbase], from, to)
 		}
 	}
 	for _, r := range h.rds {
